@@ -588,7 +588,7 @@ def crafted(rng):
     # x = x/2 + b, second change lands in (tol, (1+1e-5) tol)
     b = 2 * (1 + Fr(1, 2 ** 17))
     wb = WB(cells({0: dict(formula=(b, [(0, Fr(1, 2), 0)]), stored=Fr(0))}), [], 'cyclic', True)
-    out.append((wb, [('eval', 0, 100, Fr(1))], 'sliver'))
+    out.append((wb, [('eval', 0, 1, Fr(1)), ('eval', 0, 100, Fr(1))], 'sliver'))
     # B1 = SUM(A1:A3) stays 6 after set_value(A1, 10)
     wb = WB(cells({0: dict(stored=Fr(1)), 3: dict(stored=Fr(2)), 6: dict(stored=Fr(3)),
                    1: dict(formula=(Fr(0), [(1, Fr(1), 0)]))}), [rect(0, 0, 0, 2)], 'acyclic', False)
